@@ -16,7 +16,7 @@ CONSTANTS
   FMaxDepth = 2
   FBits = 3
   FMaxTicks = 2
-  FBug = "none"
-  FFixed = {"alternatives_not_conjoined"}
-INVARIANT InvFlowStrict
+  FBug = "shared_fake_nodes"
+  FFixed = {"fresh_fake_nodes"}
+INVARIANT InvFlow
 CHECK_DEADLOCK FALSE
